@@ -813,6 +813,67 @@ def rule_limit_forward(repo: Repo, rep: Report) -> int:
     return n
 
 
+def rule_ctor_alias(repo: Repo, rep: Report, classes) -> int:
+    """CTOR-ALIAS: a constructor must not work in place on a tensor that shares storage with one of its arguments
+    (`t = limit.detach(); t.sqrt_()`): `detach()`, `.data`, `view` and a conditional with such an arm hand out the caller's
+    storage, so the in-place operation rewrites the configured limit itself (and the caller's tensor) - the object then
+    enforces a different limit than the one it was given and reports."""
+    n = 0
+    SHARE = ("detach", "view", "view_as", "reshape", "squeeze", "unsqueeze", "flatten", "contiguous", "to", "float", "double", "type", "expand", "T", "t")
+    for ci in classes:
+        init = ci.methods.get("__init__")
+        if init is None:
+            continue
+        params = {a.arg for a in init.node.args.args + init.node.args.kwonlyargs} - {"self"}
+        ldefs = {}
+        for st in ast.walk(init.node):
+            if isinstance(st, ast.Assign) and len(st.targets) == 1 and isinstance(st.targets[0], ast.Name):
+                ldefs.setdefault(st.targets[0].id, []).append(st.value)
+
+        def shares(e, depth=0):
+            """name of the constructor argument whose storage the expression may hand out, or None"""
+            if isinstance(e, ast.IfExp):
+                return shares(e.body, depth) or shares(e.orelse, depth)
+            while True:
+                if isinstance(e, ast.Call) and isinstance(e.func, ast.Attribute) and e.func.attr in SHARE:
+                    e = e.func.value
+                elif isinstance(e, ast.Attribute) and e.attr in ("data", "T", "real", "imag"):
+                    e = e.value
+                else:
+                    break
+            if isinstance(e, ast.Name):
+                if e.id in params:
+                    return e.id
+                if depth < 3:
+                    for d_ in ldefs.get(e.id, []):
+                        r_ = shares(d_, depth + 1)
+                        if r_:
+                            return r_
+            if isinstance(e, ast.Attribute) and (attr_chain(e) or "").startswith("self."):
+                for st in ast.walk(init.node):
+                    if isinstance(st, ast.Assign) and any(attr_chain(t_) == attr_chain(e) for t_ in st.targets) and depth < 3:
+                        return shares(st.value, depth + 1)
+            return None
+
+        n += 1
+        bad = False
+        for st in ast.walk(init.node):
+            recv = None
+            if isinstance(st, ast.Call) and isinstance(st.func, ast.Attribute) and st.func.attr.endswith("_") and not st.func.attr.startswith("_") and st.func.attr not in ("requires_grad_",):
+                recv = st.func.value
+            elif isinstance(st, ast.AugAssign) and isinstance(st.target, (ast.Name, ast.Subscript)):
+                recv = st.target if isinstance(st.target, ast.Name) else st.target.value
+            if recv is None:
+                continue
+            who = shares(recv)
+            if who:
+                bad = True
+                rep.violation("CTOR-ALIAS", init, f"{ci.name}.__init__: in-place operation on storage shared with the argument `{who}`", f"`{unparse(st)[:70]}` works in place on a tensor that `detach()` / a view / a plain name shares with the constructor argument `{who}`: when a tensor is passed, the configured limit itself (and the caller's tensor) is overwritten, and forward enforces a different limit than the one configured", node=st)
+        if not bad:
+            rep.ok("CTOR-ALIAS", init, f"{ci.name}.__init__: no in-place operation reaches the storage of an argument", "the configured limits are stored as given", node=init.node, nontrivial=False)
+    return n
+
+
 def run(repo: Repo, rep: Report, tier: str) -> None:
     n = rule_limit_forward(repo, rep)
     n += rule_combine(repo, rep)
@@ -828,6 +889,7 @@ def run(repo: Repo, rep: Report, tier: str) -> None:
 
     n += rule_chunk_cover(repo, rep, [c_ for mi_ in repo.modules.values() if mi_.relpath.startswith("kaira/constraints/") for c_ in mi_.classes.values()])
     n += rule_state_alias(repo, rep, [c_ for mi_ in repo.modules.values() if mi_.relpath.startswith("kaira/constraints/") for c_ in mi_.classes.values()])
+    n += rule_ctor_alias(repo, rep, [c_ for mi_ in repo.modules.values() if mi_.relpath.startswith("kaira/constraints/") for c_ in mi_.classes.values()])
     # composite = sequential loop (shared with C17)
     from .c17 import seq_loop
 
